@@ -650,7 +650,7 @@ def replay(ctx, payload):
     return False
 
 
-# --- appended by the translator tie (wt-iso): tzical._parse_offset and _tzicalvtz._find_comp/_find_compdt/utcoffset/dst are re-translated from tz/tz.py on every run
+# --- appended by the translator tie (wt-iso): tzical._parse_offset and _tzicalvtz._find_comp/_find_compdt/utcoffset/dst/tzname (a component's TZNAME is an uninterpreted field of the component object) are re-translated from tz/tz.py on every run
 # (Generated/TzObjKernels.lean, harness/translate_obj.py) and compared with the implementation's methods
 _correspondence_without_tzobj = correspondence
 
@@ -661,7 +661,7 @@ def correspondence(ctx):
     tzobjlib.validate_ical(ctx, sys.modules[__name__])
 
 TRUSTED = TRUSTED + [
-    "translator tie: harness/translate_obj.py (ObjPy) re-translates tzical._parse_offset and _tzicalvtz._find_comp/_find_compdt/utcoffset/dst from /repo's working tree into Generated/TzObjKernels.lean on every run; Properties/TzObjGen.lean proves the translated functions equal to the hand model (gen_eq_model_* obligations in the Audit file); an edit of those functions changes the generated file and breaks the translation or a named obligation",
+    "translator tie: harness/translate_obj.py (ObjPy) re-translates tzical._parse_offset and _tzicalvtz._find_comp/_find_compdt/utcoffset/dst/tzname (a component's TZNAME is an uninterpreted field of the component object) from /repo's working tree into Generated/TzObjKernels.lean on every run; Properties/TzObjGen.lean proves the translated functions equal to the hand model (gen_eq_model_* obligations in the Audit file); an edit of those functions changes the generated file and breaks the translation or a named obligation",
     "named primitives of the ObjPy translator (Model/ObjPy.lean), trusted with their documented meaning and exercised by the tzgen.ical.* / tzgen.str.* / tzgen.range.init|eq validation against the implementation's methods on every run: ASCII str.strip/int()/indexing/slicing, `comp.rrule.before(dt, inc=True)` as the last onset <= dt of the component's onset list, `list.index` on (naive datetime, fold) keys, list insert(0)/append/pop, `with self._cache_lock` transparent, `for` loops as monadic folds with a break flag, `relativedelta(**kwargs)` for the keywords month/day/weekday/yearday/nlyearday/seconds/hours producing the model's Delta record, `datetime(year,1,1) + relativedelta` = TzStr.applyDelta, `parser._parsetz` = TzStr.parse, timedelta(seconds=) with its OverflowError, int-or-None offset arguments (timedelta arguments not modelled), the object under construction as the tuple of its fields",
 ]
 # --- end of the appended block
